@@ -55,9 +55,14 @@ try:
         t0 = time.time()
         evd = tempfile.mkdtemp(prefix="vh-seed-ev-")
         r = sh("cd %s && VERIF_EVIDENCE_DIR=%s VERIF_REPO=%s VERIF_SEED=%s ./check %s --tier %s" % (ROOT, evd, repo, seed, c, tier), timeout=6000)
+        try:
+            ev = json.load(open(os.path.join(evd, c + ".json")))
+            dist = {k: v for k, v in ev["coverage"].get("distribution", {}).items() if not k.startswith(("types=", "n=", "op:", "kind:", "form:"))}
+        except Exception as e:
+            dist = {"unreadable": str(e)}
         shutil.rmtree(evd, ignore_errors=True)
         lines = [l for l in r.stdout.splitlines() if l.startswith(("VIOLATION", "KNOWN", c, "  what", "INTERNAL", "  no longer"))]
-        res["checks"][c] = {"rc": r.returncode, "lines": [l[:300] for l in lines[:8]], "wall": round(time.time() - t0, 1)}
+        res["checks"][c] = {"rc": r.returncode, "lines": [l[:300] for l in lines[:8]], "wall": round(time.time() - t0, 1), "dist": dist}
 finally:
     if in_place:
         sh("git -C /repo checkout -- .")
